@@ -15,10 +15,14 @@ def run(ctx):
         c = sc.consts(cfg, sc.ALL_OPENS, ups, set(), set(), 5 if cfg != "ap" else 6, sessions=1)
         behs += sc.run_family(ctx, cfg, c, 6000 if big else 500, design=(cfg in ("ebgp", "cust")))
     # negotiation must not depend on earlier sessions of the peer: all paths over two / three consecutive sessions with different
-    # OPENs (role present / absent / incompatible in strict mode; 4-octet AS capability present / absent; hold time 90 / 0), for a
+    # OPENs (role present / absent / incompatible in strict mode; 4-octet AS capability present / absent; add-path capability present /
+    # absent, also for a peer with the IPv6 family only; hold time 90 / 0), for a
     # passive peer (a new FSM per connection, state kept in the peer) and an active one (one FSM reused)
     seq = [("custS", {"roleProv", "ok", "rolePeer"}, {"annA"}, {"Notification"}, 7), ("ebgp", {"ok", "okNoAS4"}, {"annA"}, {"Notification"}, 9),
-           ("ebgpA", {"ok", "okNoAS4"}, {"annA"}, {"Notification"}, 9), ("ebgpA", {"ok", "hold0"}, set(), {"Notification", "Wait"}, 9)]
+           ("ebgpA", {"ok", "okNoAS4"}, {"annA"}, {"Notification"}, 9), ("ebgpA", {"ok", "hold0"}, set(), {"Notification", "Wait"}, 9),
+           # add-path with and without the capability in the peer's OPEN, dual-stack and IPv6-only peers, passive and active
+           ("ap", {"ok", "okNoAP"}, {"apA1A2", "annA"}, {"Notification"}, 9), ("apA", {"ok", "okNoAP"}, {"apA1A2", "annA"}, {"Notification"}, 9),
+           ("ap6A", {"ok", "okNoAP"}, {"apC1C2", "annC6"}, {"Notification"}, 9), ("ap6", {"ok", "okNoAP"}, {"apC1C2", "annC6"}, {"Notification"}, 9)]
     for cfg, opens, ups, stops, depth in seq:
         c = sc.consts(cfg, opens, ups, set(), stops, depth, sessions=2)
         # always replayed: a second session that gets as far as possible (the longest paths), whatever the first one was
